@@ -68,6 +68,7 @@ inductive RawOp (V : Type) where
   | rev
   | app (m : RawMesh V)
   | tv (iso : List Float)
+  | sc (scale : List Float)
 
 def repP {α} (p : P α) : Nat → P (List α)
   | 0 => pure []
@@ -79,6 +80,7 @@ def pop {V} (pv : P V) : P (RawOp V) := do
   else if t = "rev" then pure .rev
   else if t = "app" then do let m ← pmesh pv; pure (.app m)
   else if t = "tv" then do let n ← pnat; let xs ← repP pf n; pure (.tv xs)
+  else if t = "sc" then do let n ← pnat; let xs ← repP pf n; pure (.sc xs)
   else failure
 
 def pcase {V} (pv : P V) : P (RawMesh V × List (RawOp V)) := do
@@ -100,9 +102,12 @@ class ShowN (N : Type) where
   showN : N → List String
   /-- `Isometry * Vector` (rotation only) -/
   isoRot : List Float → N → N
+  /-- `scaled` as written: `n.component_mul_assign(scale); n.try_normalize_mut(0.0)` -/
+  scaleN : List Float → N → N
 instance : ShowN (V3 Float) := ⟨fun v => [ff v.x, ff v.y, ff v.z],
-  fun xs n => (⟨xs.getD 0 0, xs.getD 1 0, xs.getD 2 0, xs.getD 3 0, ⟨0, 0, 0⟩⟩ : Iso3 Float).rot n⟩
-instance : ShowN Unit := ⟨fun _ => [], fun _ n => n⟩
+  fun xs n => (⟨xs.getD 0 0, xs.getD 1 0, xs.getD 2 0, xs.getD 3 0, ⟨0, 0, 0⟩⟩ : Iso3 Float).rot n,
+  fun xs n => scaleNormal3 ⟨xs.getD 0 0, xs.getD 1 0, xs.getD 2 0⟩ n⟩
+instance : ShowN Unit := ⟨fun _ => [], fun _ n => n, fun _ n => n⟩
 /-- printing of vertices, and the box operations of `Triangle::local_aabb` / `Aabb::merged` (Rust `f64::min/max`) -/
 class ShowV (V : Type) where
   showV : V → List String
@@ -113,14 +118,16 @@ class ShowV (V : Type) where
   invMax : V
   /-- `Isometry * Point` for the isometry given by its protocol components -/
   isoAct : List Float → V → V
+  /-- `pt.coords.component_mul_assign(scale)` -/
+  scaleAct : List Float → V → V
 def fmaxv : Float := Float.ofBits 0x7FEFFFFFFFFFFFFF
 def iso3Of (xs : List Float) : Iso3 Float :=
   ⟨xs.getD 0 0, xs.getD 1 0, xs.getD 2 0, xs.getD 3 0, ⟨xs.getD 4 0, xs.getD 5 0, xs.getD 6 0⟩⟩
 def iso2Of (xs : List Float) : Iso2 Float := ⟨xs.getD 0 0, xs.getD 1 0, ⟨xs.getD 2 0, xs.getD 3 0⟩⟩
 instance : ShowV (V3 Float) := ⟨fun v => [ff v.x, ff v.y, ff v.z], V3.inf, V3.sup, ⟨fmaxv, fmaxv, fmaxv⟩, ⟨-fmaxv, -fmaxv, -fmaxv⟩,
-  fun xs p => (iso3Of xs).act p⟩
+  fun xs p => (iso3Of xs).act p, fun xs p => scalePt3 ⟨xs.getD 0 0, xs.getD 1 0, xs.getD 2 0⟩ p⟩
 instance : ShowV (V2 Float) := ⟨fun v => [ff v.x, ff v.y], V2.inf, V2.sup, ⟨fmaxv, fmaxv⟩, ⟨-fmaxv, -fmaxv⟩,
-  fun xs p => (iso2Of xs).act p⟩
+  fun xs p => (iso2Of xs).act p, fun xs p => scalePt2 ⟨xs.getD 0 0, xs.getD 1 0⟩ p⟩
 
 /-- `Triangle::local_aabb` -/
 def triBox {V} [ShowV V] (c : V × V × V) : V × V :=
@@ -150,7 +157,11 @@ def showState {V N} [Geo V N] [ShowV V] [ShowN N] (w dim3 : Bool) (s : Mesh V N)
     ["Q", (match s.qbvh, allCoords s.vertices s.indices with
            | some cs, some cur => if (cs.map fun c => let b := triBox c; ShowV.showV b.1 ++ ShowV.showV b.2) ==
                                      (cur.map fun c => let b := triBox c; ShowV.showV b.1 ++ ShowV.showV b.2) then "1" else "0"
-           | _, _ => "0"), "D"] ++ showDerived s.derived
+           | _, _ => "0")] ++
+    -- `B`: the box held by the leaf of every triangle; `H 1`: the model's tree is a bounding hierarchy by construction
+    (match s.qbvh with
+     | some cs => ["B", toString cs.length] ++ cs.flatMap (fun c => let b := triBox c; ShowV.showV b.1 ++ ShowV.showV b.2) ++ ["H", "1"]
+     | none => ["B", "0", "H", "0"]) ++ ["D"] ++ showDerived s.derived
   let lit : List String :=
     if s.indices.isEmpty then ["e"] else
     match (if w then buildCoreW dim3 s.vertices s.indices s.flags else buildCore dim3 s.vertices s.indices s.flags) with
@@ -167,34 +178,41 @@ def showErr : Option TopoErr → List String
   | some (.badAdj a b c d) => ["badadj", toString a, toString b, toString c, toString d]
 
 /-- run the history with the model; segments as in the harness -/
-def runOps {V N} [Geo V N] [ShowV V] [ShowN N] (w dim3 : Bool) : Mesh V N → List (RawOp V) → List (List String)
+def runOps {V N} [Geo V N] [ShowV V] [ShowN N] (w dim3 sw : Bool) : Mesh V N → List (RawOp V) → List (List String)
   | _, [] => []
   | s, .sf f :: ops =>
     match (if w then setFlagsW dim3 s (Flags.ofNat f) else setFlags dim3 s (Flags.ofNat f)) with
     | none => [["panic"]]
-    | some (s', r) => (showErr r ++ showState w dim3 s') :: runOps w dim3 s' ops
+    | some (s', r) => (showErr r ++ showState w dim3 s') :: runOps w dim3 sw s' ops
   | s, .rev :: ops =>
     match (if w then reverseW dim3 s else reverse dim3 s) with
     | none => [["panic"]]
-    | some s' => showState w dim3 s' :: runOps w dim3 s' ops
+    | some s' => showState w dim3 s' :: runOps w dim3 sw s' ops
   | s, .app m :: ops =>
     match (if w then withFlagsW (N := N) dim3 m.vs m.idx (Flags.ofNat m.flags) else withFlags (N := N) dim3 m.vs m.idx (Flags.ofNat m.flags)) with
     | .ok rhs =>
       match (if w then appendW dim3 s rhs else append dim3 s rhs) with
       | none => [["panic"]]
-      | some s' => showState w dim3 s' :: runOps w dim3 s' ops
-    | _ => ["rhsfail"] :: runOps w dim3 s ops
+      | some s' => showState w dim3 s' :: runOps w dim3 sw s' ops
+    | _ => ["rhsfail"] :: runOps w dim3 sw s ops
   | s, .tv xs :: ops =>
     match transformVertices (ShowV.isoAct xs) (ShowN.isoRot xs) s with
     | none => [["panic"]]
-    | some s' => showState w dim3 s' :: runOps w dim3 s' ops
+    | some s' => showState w dim3 s' :: runOps w dim3 sw s' ops
+  | s, .sc xs :: ops =>
+    -- a mesh that has lost all its triangles is outside the explored domain of `scaled`: the operation is skipped
+    if s.indices.isEmpty then ["emptysc"] :: runOps w dim3 sw s ops else
+    -- `sw`: `scaled` as written (cached pseudo-normals scaled and normalised); otherwise with the fix (recomputed)
+    match (if sw then some (scaledW dim3 (ShowV.scaleAct xs) (ShowN.scaleN xs) s) else scaled dim3 (ShowV.scaleAct xs) s) with
+    | none => [["panic"]]
+    | some s' => showState w dim3 s' :: runOps w dim3 sw s' ops
 
-def runHist {V N} [Geo V N] [ShowV V] [ShowN N] (w dim3 : Bool) (m : RawMesh V) (ops : List (RawOp V)) : String :=
+def runHist {V N} [Geo V N] [ShowV V] [ShowN N] (w dim3 : Bool) (m : RawMesh V) (ops : List (RawOp V)) (sw : Bool := w) : String :=
   match (if w then withFlagsW (N := N) dim3 m.vs m.idx (Flags.ofNat m.flags) else withFlags (N := N) dim3 m.vs m.idx (Flags.ofNat m.flags)) with
   | .panic => "panic"
   | .emptyIndices => "empty"
   | .ok s =>
-    let segs := showState w dim3 s :: runOps w dim3 s ops
+    let segs := showState w dim3 s :: runOps w dim3 sw s ops
     " ; ".intercalate (segs.map (" ".intercalate ·))
 
 /-! ## the oracle -/
@@ -210,6 +228,9 @@ structure OState where
   coords : List (List Float)
   box : List Float
   q : Nat
+  /-- leaf box of every triangle (`none`: the proxy designates no leaf slot) -/
+  leaf : List (Option (List Float)) := []
+  hier : Nat := 1
   idx : List Tri
   flags : Flags
   d : ODerived
@@ -226,6 +247,9 @@ def poptDash {α} (p : P α) : P (Option α) := do
 def rep {α} (p : P α) : Nat → P (List α)
   | 0 => pure []
   | k + 1 => do let x ← p; let xs ← rep p k; pure (x :: xs)
+def poptX {α} (p : P α) : P (Option α) := do
+  let t ← peek
+  if t = "x" then do let _ ← tok; pure none else do let x ← p; pure (some x)
 
 def pderived (dimN : Nat) : P ODerived := do
   expect "T"
@@ -248,6 +272,8 @@ def pstate (dim : Nat) : P OState := do
   expect "F"; let f ← pnat
   expect "A"; let box ← rep pfo (2 * dim)
   expect "Q"; let qv ← pnat
+  expect "B"; let leaf ← plist (poptX (rep pfo (2 * dim)))
+  expect "H"; let hv ← pnat
   expect "D"; let d ← pderived dim
   expect "L"
   let t ← peek
@@ -257,7 +283,8 @@ def pstate (dim : Nat) : P OState := do
   let t ← peek
   let der ← (if t = "e" ∨ t = "panic" then do let _ ← tok; pure none else do let x ← pderived dim; pure (some x) : P (Option ODerived))
   pend
-  pure ⟨nv, coords, box, qv, idx, Flags.ofNat f, d, lit, tag, der⟩
+  pure { nv := nv, coords := coords, box := box, q := qv, leaf := leaf, hier := hv, idx := idx, flags := Flags.ofNat f, d := d,
+         lit := lit, litTag := tag, der := der }
 
 /-- numeric equality of printed floats (`-0 = 0` by the canonical print; NaN only equals NaN) -/
 def feq (x y : Float) : Bool :=
@@ -401,7 +428,22 @@ def checkBox (dim : Nat) (s : OState) : Option String :=
     | x :: r => !(q lo == r.foldl min x && q hi == r.foldl max x)
   match bad with
   | some k => some s!"spec:A root-aabb-axis-{k}"
-  | none => if s.q = 1 then none else some "qbvh-differs-from-fresh"
+  | none =>
+    -- every triangle has a leaf, and the box of that leaf is exactly the bounding box of the triangle's current vertices
+    if s.leaf.length != s.idx.length then some s!"spec:B qbvh-leaves={s.leaf.length} ni={s.idx.length}" else
+    let badLeaf := (s.idx.zip s.leaf).zipIdx.find? fun ((t, lb), _) =>
+      match lb, s.coords[t.a]?, s.coords[t.b]?, s.coords[t.c]? with
+      | some b, some pa, some pb, some pc =>
+        if b.any (fun x => x.isNaN) then true else
+        (List.range dim).any fun k =>
+          let xa := q (pa.getD k 0); let xb := q (pb.getD k 0); let xc := q (pc.getD k 0)
+          !(q (b.getD k 0) == min (min xa xb) xc && q (b.getD (dim + k) 0) == max (max xa xb) xc)
+      | _, _, _, _ => true
+    match badLeaf with
+    | some (_, i) => some s!"spec:B qbvh-leaf-box-of-triangle-{i}-is-not-the-box-of-its-vertices"
+    | none =>
+      if s.hier != 1 then some "spec:H qbvh-not-a-bounding-hierarchy-of-its-leaves" else
+      if s.q = 1 then none else some "qbvh-differs-from-fresh"
 
 /-- some triangle is rounding-sensitive for `Triangle::normal()`: it is (nearly) flat, `|ab × ac|² ≤ 1e-12 · (longest edge)⁴`,
 and its cross product is not computed exactly in binary64 (two corners do not coincide, and the coordinates are not all
@@ -426,9 +468,9 @@ def nearlyFlat (s : OState) : Bool :=
       decide (n2 * 1000000000000 ≤ m * m) && !coincide && !exact
     | _, _, _ => false
 
-def judgeState (dim3 : Bool) (s : OState) : Option String :=
+def judgeState (dim3 : Bool) (s : OState) (pnExcused : Bool := false) : Option String :=
   let dropPN (fs : List String) : List String :=
-    if nearlyFlat s then fs.filter (fun f => f != "Pv" && f != "Pe") else fs
+    if nearlyFlat s || pnExcused then fs.filter (fun f => f != "Pv" && f != "Pe") else fs
   let g : Option String := match s.der with
     | none => none
     | some d => match dropPN (diffDerived s.d d) with
@@ -439,7 +481,8 @@ def judgeState (dim3 : Bool) (s : OState) : Option String :=
     | some d => match dropPN (diffDerived s.d d) with
       | [] => none
       | fs => some ("differs-from-fresh(L) fields=" ++ ",".intercalate fs)
-  match g, l, specCheck dim3 s, checkBox (if dim3 then 3 else 2) s, checkBuffers s with
+  -- the QBVH / AABB verdict first: it must not be masked by a difference in the other derived data
+  match checkBox (if dim3 then 3 else 2) s, g, l, specCheck dim3 s, checkBuffers s with
   | some e, _, _, _, _ => some e
   | _, some e, _, _, _ => some e
   | _, _, some e, _, _ => some e
@@ -464,38 +507,57 @@ def opName {V} : RawOp V → String
   | .rev => "rev"
   | .app m => s!"app({m.flags})"
   | .tv _ => "tv"
+  | .sc xs => "sc(" ++ ",".intercalate (xs.map fun x => if x < 0 then "-" else "+") ++ ")"
 
-def oracleHist {V} (dim : Nat) (dim3 : Bool) (m : RawMesh V) (ops : List (RawOp V)) (out : List String) : String :=
+/-- `false`: the model and the oracle follow `scaled` with `fixes/C11-scaled-pseudo-normals.diff` (cached pseudo-normals
+recomputed: everything equals a fresh build).  `true` (fallback, should the fix be declined): the model follows `scaled` **as
+written** and, in 3-D, a pseudo-normal difference with the fresh builds on a state reached through `sc` (until the next
+`append`, which rebuilds) is not an immediate failure: every other check still runs on every state, and if nothing else
+fails the history is reported with the verdict tag `scaled-pseudo-normals-not-recomputed` (for a `known:` line). -/
+def scaledAsWritten : Bool := false
+
+def oracleHist {V} (dim : Nat) (dim3 : Bool) (m : RawMesh V) (ops : List (RawOp V)) (out : List String)
+    (asw : Bool := scaledAsWritten) : String :=
   let segs := splitSegs out
   let names := s!"new({m.flags})" :: ops.map opName
   let wf := inBounds m.vs.length m.idx
-  let rec go (segs : List (List String)) (names : List String) (k : Nat) (hist : String) (judged : Nat) : String :=
+  let rec go (segs : List (List String)) (names : List String) (k : Nat) (hist : String) (judged : Nat)
+      (tainted : Bool) (deferred : Option String) : String :=
+    let done (judged : Nat) : String := match deferred with
+      | some e => e
+      | none => if judged = 0 then "skip no-state" else "pass"
     match segs, names with
-    | [], _ => if judged = 0 then "skip no-state" else "pass"
+    | [], _ => done judged
     | seg :: rest, nm :: nms =>
       let hist := if hist = "" then nm else hist ++ ">" ++ nm
+      let tainted := if nm.startsWith "app" then false else if nm.startsWith "sc(" then (asw && dim3) else tainted
       match seg with
-      | ["rhsfail"] => go rest nms (k + 1) hist judged
+      | ["rhsfail"] => go rest nms (k + 1) hist judged tainted deferred
+      | ["emptysc"] => go rest nms (k + 1) hist judged tainted deferred
       | ["empty"] => if m.idx.isEmpty then (if judged = 0 then "skip empty-indices" else "pass") else s!"fail step={k} hist={hist} unexpected-empty"
       | ["panic"] =>
         -- a panic is legitimate only for out-of-bounds input buffers or `append` producing an empty index buffer
-        if !wf then (if judged = 0 then "skip out-of-bounds-input" else "pass")
-        else if nm.startsWith "app" then (if judged = 0 then "skip append-panic" else "pass")
+        if !wf then (if judged = 0 then "skip out-of-bounds-input" else done judged)
+        else if nm.startsWith "app" then (if judged = 0 then "skip append-panic" else done judged)
         else s!"fail step={k} hist={hist} panic"
       | _ =>
         match run (pstate dim) (stripRes seg) with
         | none => s!"fail step={k} hist={hist} unparsable-output"
         | some s =>
-          match judgeState dim3 s with
+          match judgeState dim3 s tainted with
           | some e => s!"fail step={k} hist={hist} {e}"
-          | none => go rest nms (k + 1) hist (judged + 1)
+          | none =>
+            -- excused pseudo-normal difference (fallback mode only): remember the first one
+            let deferred := if tainted && deferred.isNone && (judgeState dim3 s false).isSome
+              then some s!"fail step={k} hist={hist} scaled-pseudo-normals-not-recomputed" else deferred
+            go rest nms (k + 1) hist (judged + 1) tainted deferred
     | _ :: _, [] => "fail more-segments-than-ops"
-  go segs names 0 "" 0
+  go segs names 0 "" 0 false none
 
 /-! ## `contains3`: the inside test of a closed, outward-oriented mesh against the exact crossing parity -/
 
 /-- final state of the model after the history (no dump) -/
-def finalState {V N} [Geo V N] (dim3 : Bool) (m : RawMesh V) (ops : List (RawOp V)) : Option (Mesh V N) :=
+def finalState {V N} [Geo V N] [ShowV V] [ShowN N] (dim3 : Bool) (m : RawMesh V) (ops : List (RawOp V)) : Option (Mesh V N) :=
   match withFlags (N := N) dim3 m.vs m.idx (Flags.ofNat m.flags) with
   | .ok s => ops.foldlM (fun s op => match op with
       | .sf f => (setFlags dim3 s (Flags.ofNat f)).map (·.1)
@@ -503,7 +565,8 @@ def finalState {V N} [Geo V N] (dim3 : Bool) (m : RawMesh V) (ops : List (RawOp 
       | .app r => match withFlags (N := N) dim3 r.vs r.idx (Flags.ofNat r.flags) with
         | .ok rhs => append dim3 s rhs
         | _ => some s
-      | .tv _ => some s) s
+      | .tv xs => transformVertices (ShowV.isoAct xs) (ShowN.isoRot xs) s
+      | .sc xs => if s.indices.isEmpty then some s else scaled dim3 (ShowV.scaleAct xs) s) s
   | _ => none
 
 inductive Hit where
@@ -577,6 +640,7 @@ def pcontains : P (RawMesh (V3 Float) × List (RawOp (V3 Float)) × List (V3 Flo
 def trisOf (s : Mesh (V3 Float) (V3 Float)) : List (V3 Rat × V3 Rat × V3 Rat) :=
   ((allCoords s.vertices s.indices).getD []).map fun c => (q3 c.1, q3 c.2.1, q3 c.2.2)
 
+<<<<<<< HEAD
 /-! ## `histq3` / `histq2`: real queries on the final mesh of a history (oracle only, C20's panic / NaN clause)
 
 The harness replays the history of a `hist3` / `hist2` case and runs ray casts, point projections and ball queries on the
@@ -789,16 +853,152 @@ def oracle (o : List String) : String :=
         | none => if items.isEmpty then "skip no-queries" else "pass"
 
 end HQ
+=======
+/-! ## `bvhq3` / `bvhq2`: a QBVH-backed query (`project_local_point`) after a history, against brute force
+
+The real mesh projects every query point with a best-first traversal of its QBVH.  Whatever the history did to the tree
+(`scaled` transforms it in place, `set_flags` keeps or rebuilds it, ...), the answer must be the distance to the nearest
+triangle of the **current** buffers.  Model: the history run by the model, then the exact (rational) brute-force distance
+over all triangles of the model's final buffers (correspondence: buffers bit-exact, distances within `reltol`, see
+`relations.json`).  Oracle: the same brute force on the buffers printed by the implementation. -/
+
+/-- nearest `Float` (up to an ulp) of a rational -/
+def ratToFloat (r : Rat) : Float :=
+  if r = 0 then 0 else
+  let n := r.num.natAbs
+  let d := r.den
+  let k : Int := 64 + (d.log2 : Int) - (n.log2 : Int)
+  let qn : Nat := if k ≥ 0 then (n <<< k.toNat) / d else n / (d <<< (-k).toNat)
+  let f := (Float.ofNat qn).scaleB (-k)
+  if r < 0 then -f else f
+
+class Embed3 (V : Type) where
+  /-- the point as an exact point of space (2-D: `z = 0`) -/
+  toQ3 : V → V3 Rat
+  ofList : List Float → V
+instance : Embed3 (V3 Float) := ⟨q3, fun l => ⟨l.getD 0 0, l.getD 1 0, l.getD 2 0⟩⟩
+instance : Embed3 (V2 Float) := ⟨fun p => ⟨q p.x, q p.y, 0⟩, fun l => ⟨l.getD 0 0, l.getD 1 0⟩⟩
+
+/-- exact squared distance from `p` to the nearest triangle (`none`: no triangle) -/
+def minDistSq (tris : List (V3 Rat × V3 Rat × V3 Rat)) (p : V3 Rat) : Option Rat :=
+  tris.foldl (fun acc t => let d := distSqTri p t.1 t.2.1 t.2.2
+    match acc with | none => some d | some m => some (min m d)) none
+
+/-- a triangle on which Ericson's closest-point case analysis (and parry's) divides by a vanishing quantity:
+zero area -/
+def flatTri (t : V3 Rat × V3 Rat × V3 Rat) : Bool :=
+  let n := (t.2.1.sub t.1).cross (t.2.2.sub t.1)
+  let m := max (max (t.2.1.sub t.1).normSq (t.2.2.sub t.1).normSq) (t.2.2.sub t.2.1).normSq
+  decide (n.normSq * 1000000000000 ≤ m * m)
+
+def pbvhq {V} (pv : P V) : P (RawMesh V × List (RawOp V) × List V) := do
+  let m ← pmesh pv; let ops ← plist (pop pv); let pts ← plist pv; pend; pure (m, ops, pts)
+
+def bvhqHandler {V N} [Geo V N] [ShowV V] [ShowN N] [Embed3 V] (pv : P V) (dim : Nat) (dim3 : Bool) : Handler where
+  model := fun a => (run (pbvhq pv) a).map fun (m, ops, pts) =>
+    match finalState (N := N) dim3 m ops with
+    | none => "nobuild"
+    | some s =>
+      let tris := ((allCoords s.vertices s.indices).getD []).map fun c => (Embed3.toQ3 c.1, Embed3.toQ3 c.2.1, Embed3.toQ3 c.2.2)
+      " ".intercalate (["V", toString s.vertices.length] ++ s.vertices.flatMap ShowV.showV ++
+        ["I", toString s.indices.length] ++ s.indices.flatMap (fun t => [toString t.a, toString t.b, toString t.c]) ++ ["R"] ++
+        pts.map fun p => match minDistSq tris (Embed3.toQ3 p) with
+          | some d => ff (Float.sqrt (ratToFloat d))
+          | none => "nan")
+  oracle := fun a o => match run (pbvhq pv) a with
+    | none => "skip bad-args"
+    | some (_, _, pts) =>
+      if o = ["nobuild"] then "skip nobuild" else
+      let parsed : Option (List (List Float) × List Tri × List Float) := run (do
+        expect "V"; let nv ← pnat; let coords ← rep (rep pfo dim) nv
+        expect "I"; let idx ← plist ptri
+        expect "R"; let ds ← rep pfo pts.length
+        pend; pure (coords, idx, ds)) o
+      match parsed with
+      | none => "fail unparsable-output"
+      | some (coords, idx, ds) =>
+        let vs : List V := coords.map Embed3.ofList
+        match allCoords vs idx with
+        | none => "fail index-out-of-bounds"
+        | some cs =>
+          let tris := cs.map fun c => (Embed3.toQ3 c.1, Embed3.toQ3 c.2.1, Embed3.toQ3 c.2.2)
+          if tris.any flatTri then "skip degenerate-triangle" else
+          let bad := (pts.zip ds).zipIdx.find? fun ((p, d), _) =>
+            if d.isNaN || !FloatIO.isFinite d then true else
+            match minDistSq tris (Embed3.toQ3 p) with
+            | none => true
+            | some e2 =>
+              let r2 := q d * q d
+              let tol : Rat := tolDefault * (1 + e2 + r2)
+              !(decide (r2 ≤ e2 + tol) && decide (e2 ≤ r2 + tol))
+          match bad with
+          | some (_, k) => s!"fail point {k}: project_local_point (QBVH traversal) is not at the brute-force distance of the current triangles"
+          | none => if pts.isEmpty then "skip no-point" else "pass"
+
+/-! ## `boxscale3` / `boxscale2`: `Aabb::scaled` of a triangle's box is the box of the scaled triangle -/
+
+def fbox3 (b : V3 Float × V3 Float) : String := fv3 b.1 ++ " " ++ fv3 b.2
+def fbox2 (b : V2 Float × V2 Float) : String := fv2 b.1 ++ " " ++ fv2 b.2
+
+/-- oracle: both printed boxes are, axis by axis, the exact min / max of the three products `v_k * s` up to rounding, and
+they are the same box -/
+def boxscaleOracle (dim : Nat) (a : List Float) (o : List String) : String :=
+  match run (do let xs ← rep pfo (4 * dim); pend; pure xs) o with
+  | none => "fail unparsable-output"
+  | some out =>
+    if a.length != 4 * dim then "skip bad-args" else
+    if out.any (fun x => x.isNaN) then "fail nan" else
+    let b1 := out.take (2 * dim)
+    let b2 := out.drop (2 * dim)
+    if !((b1.zip b2).all fun (x, y) => x == y) then "fail Aabb::scaled(box(triangle)) differs from box(scaled triangle)" else
+    let bad := (List.range dim).find? fun k =>
+      let sk := q (a.getD (3 * dim + k) 0)
+      let xs := [q (a.getD k 0) * sk, q (a.getD (dim + k) 0) * sk, q (a.getD (2 * dim + k) 0) * sk]
+      let lo := xs.foldl min (xs.headD 0)
+      let hi := xs.foldl max (xs.headD 0)
+      let l := q (b1.getD k 0); let h := q (b1.getD (dim + k) 0)
+      !(leTol l lo tolDefault && leTol lo l tolDefault && leTol h hi tolDefault && leTol hi h tolDefault)
+    match bad with
+    | some k => s!"fail axis {k}: the scaled box is not the bounding interval of the scaled vertices"
+    | none => "pass"
+>>>>>>> fu2-F11
 
 def handler (fn : String) : Option Handler :=
   match fn with
+  | "bvhq3" => some (bvhqHandler (N := V3 Float) pv3 3 true)
+  | "bvhq2" => some (bvhqHandler (N := Unit) pv2 2 false)
+  | "boxscale3" => some {
+      model := fun a => run (do
+        let pa ← pv3; let pb ← pv3; let pc ← pv3; let s ← pv3; pend
+        pure (fbox3 (aabbScaled3 (triBox3 (pa, pb, pc)) s) ++ " " ++ fbox3 (triBox3 (scalePt3 s pa, scalePt3 s pb, scalePt3 s pc)))) a
+      oracle := fun a o => match run (rep pf 12) a with
+        | some xs => boxscaleOracle 3 xs o
+        | none => "skip bad-args" }
+  | "boxscale2" => some {
+      model := fun a => run (do
+        let pa ← pv2; let pb ← pv2; let pc ← pv2; let s ← pv2; pend
+        pure (fbox2 (aabbScaled2 (triBox2 (pa, pb, pc)) s) ++ " " ++ fbox2 (triBox2 (scalePt2 s pa, scalePt2 s pb, scalePt2 s pc)))) a
+      oracle := fun a o => match run (rep pf 8) a with
+        | some xs => boxscaleOracle 2 xs o
+        | none => "skip bad-args" }
+  -- `scaled` as written on the current tree (cached pseudo-normals scaled and normalised), everything else fixed
+  | "hist3s" => some {
+      model := fun a => (run (pcase pv3) a).map fun (m, ops) => runHist (N := V3 Float) false true m ops true
+      oracle := fun a o => match run (pcase pv3) a with
+        | some (m, ops) => oracleHist 3 true m ops o true
+        | none => "skip bad-args" }
+  | "hist2s" => some {
+      model := fun a => (run (pcase pv2) a).map fun (m, ops) => runHist (N := Unit) false false m ops true
+      oracle := fun a o => match run (pcase pv2) a with
+        | some (m, ops) => oracleHist 2 false m ops o true
+        | none => "skip bad-args" }
   | "hist3" => some {
-      model := fun a => (run (pcase pv3) a).map fun (m, ops) => runHist (N := V3 Float) false true m ops
+      model := fun a => (run (pcase pv3) a).map fun (m, ops) => runHist (N := V3 Float) false true m ops scaledAsWritten
       oracle := fun a o => match run (pcase pv3) a with
         | some (m, ops) => oracleHist 3 true m ops o
         | none => "skip bad-args" }
   | "hist2" => some {
-      model := fun a => (run (pcase pv2) a).map fun (m, ops) => runHist (N := Unit) false false m ops
+      model := fun a => (run (pcase pv2) a).map fun (m, ops) => runHist (N := Unit) false false m ops scaledAsWritten
       oracle := fun a o => match run (pcase pv2) a with
         | some (m, ops) => oracleHist 2 false m ops o
         | none => "skip bad-args" }
@@ -818,8 +1018,13 @@ def handler (fn : String) : Option Handler :=
         | some (m, ops, pts) =>
           if o = ["nobuild"] then "skip nobuild" else
           if o.length != pts.length then "fail unparsable-output" else
+          -- the histories keep the surface and its orientation, except `sc` (orientation-preserving scales only), which is
+          -- applied here in exact arithmetic
+          let scaleOf (p : V3 Rat) : V3 Rat := ops.foldl (fun p op => match op with
+            | .sc xs => (⟨p.x * q (xs.getD 0 1), p.y * q (xs.getD 1 1), p.z * q (xs.getD 2 1)⟩ : V3 Rat)
+            | _ => p) p
           let tris : List (V3 Rat × V3 Rat × V3 Rat) :=
-            ((allCoords m.vs m.idx).getD []).map fun c => (q3 c.1, q3 c.2.1, q3 c.2.2)
+            ((allCoords m.vs m.idx).getD []).map fun c => (scaleOf (q3 c.1), scaleOf (q3 c.2.1), scaleOf (q3 c.2.2))
           let tol : Rat := 1 / 1000000
           let res := (pts.zip o).map fun (p, bit) =>
             let P := q3 p
@@ -827,7 +1032,6 @@ def handler (fn : String) : Option Handler :=
             match insideParity tris P dirsB with
             | none => 0
             | some ins => if (if ins then "1" else "0") = bit then 1 else 2
-          let _ := ops
           match res.findIdx? (· == 2) with
           | some k => s!"fail point {k} contains_local_point disagrees with the crossing parity"
           | none => if res.any (· == 1) then "pass" else "skip all-points-near-surface" }
